@@ -9,9 +9,18 @@ for D in "$SRC/$ID"/m*; do
   [ -f "$D/patch.diff" ] || continue
   k="$(basename "$D")"
   grep -q "^$ID/$k " "$OUT" 2>/dev/null && continue
-  cmd="$(python3 -c "import json,sys; print(json.load(open('$D/meta.json')).get('demo_cmd','') )" 2>/dev/null)"
-  case "$cmd" in *"cargo run"*) : ;; *) cmd="cargo run --offline --example demo" ;; esac
-  cmd="$(echo "$cmd" | sed -E 's#^cd [^&]*&& *##; s#  +\(.*$##; s# *\#.*$##')"
+  cmd="$(python3 - "$D/meta.json" <<'PY'
+import json,re,sys
+try: c=json.load(open(sys.argv[1])).get('demo_cmd','')
+except Exception: c=''
+m=re.search(r'cargo run[^&;#(]*', c)
+run=(m.group(0).strip() if m else 'cargo run --offline --example demo')
+if '--offline' not in run: run=run.replace('cargo run','cargo run --offline')
+if '--example' not in run: run+=' --example demo'
+f=re.search(r'RUSTFLAGS=("[^"]*"|\S+)', c)
+print((f.group(0)+' ' if f else '')+run)
+PY
+)"
   clean
   cp "$D/demo.rs" "$WT/cozy-chess/examples/demo.rs"
   ( cd "$WT" && eval "$cmd" ) > "$D/confirm_clean.log" 2>&1; rc_clean=$?
